@@ -28,6 +28,9 @@ Definition dc_ok (dc : list (dkey * doc)) : Prop := Forall dc_entry_ok dc.
 Definition lc_entry_ok (e : str * list str) : Prop := snd e = split_on NL (fst e).
 Definition lc_ok (lc : list (str * list str)) : Prop := Forall lc_entry_ok lc.
 
+Definition li_entry_ok (e : str * list Z) : Prop := snd e = line_start_indexes (mkdoc (fst e) 0).
+Definition li_ok (li : list (str * list Z)) : Prop := Forall li_entry_ok li.
+
 Lemma dc_find_ok k dc d : dc_ok dc -> dc_find k dc = Some d -> d = mkdoc (fst k) (snd k).
 Proof.
   induction 1 as [|[k' d'] r He Hr IH]; cbn [dc_find]; [discriminate|].
@@ -69,6 +72,14 @@ Qed.
 Lemma lc_find_ok t lc ls : lc_ok lc -> lc_find t lc = Some ls -> ls = split_on NL t.
 Proof.
   induction 1 as [|[t' l'] r He Hr IH]; cbn [lc_find]; [discriminate|].
+  destruct (str_eqb t t') eqn:E.
+  - intros X; injection X as <-. apply str_eqb_true in E. subst t'. exact He.
+  - exact IH.
+Qed.
+
+Lemma li_find_ok t li ix : li_ok li -> li_find t li = Some ix -> ix = line_start_indexes (mkdoc t 0).
+Proof.
+  induction 1 as [|[t' l'] r He Hr IH]; cbn [li_find]; [discriminate|].
   destruct (str_eqb t t') eqn:E.
   - intros X; injection X as <-. apply str_eqb_true in E. subst t'. exact He.
   - exact IH.
@@ -142,7 +153,8 @@ Record WInv (w : wbuf) : Prop := {
   wi_cur : 0 <= wcur w <= len (w_text w);
   wi_dc : dc_ok (wdc w);
   wi_dcn : len (wdc w) <= DC_SIZE + 1;
-  wi_lc : lc_ok (wlc w)
+  wi_lc : lc_ok (wlc w);
+  wi_li : li_ok (wli w)
 }.
 
 Lemma winv_abs w : WInv w -> Inv (w_abs w).
@@ -181,22 +193,23 @@ Proof.
     pose proof (xstep_inv (w_abs w) x (winv_abs w H)) as I. rewrite <- R in I.
     cbn [wstep snd] in *.
     destruct (dc_touch_ok (touches (w_abs w) x) (wdc w) (wi_dc w H) (wi_dcn w H)) as [A B].
-    constructor; cbn [w_commit w_touch wlines widx wcur wdc wlc].
+    constructor; cbn [w_commit w_touch wlines widx wcur wdc wlc wli].
     + rewrite py_update_len. apply H.
     + exact I.
     + exact A.
     + exact B.
+    + apply H.
     + apply H.
   - cbn [wstep snd]. unfold w_go_to_history.
     destruct ((0 <=? i) && (i <? len (wlines w))) eqn:E; [|exact H].
     apply andb_prop in E as [E1 E2].
     set (w1 := if widx w =? i then w else _).
     assert (H1 : 0 <= widx w1 < len (wlines w1) /\ dc_ok (wdc w1) /\ len (wdc w1) <= DC_SIZE + 1
-                 /\ lc_ok (wlc w1)).
+                 /\ lc_ok (wlc w1) /\ li_ok (wli w1)).
     { unfold w1. destruct (widx w =? i); [repeat split; apply H|].
-      unfold w_set_cursor; cbn [wlines widx wdc wlc]. repeat split; try apply H; lia. }
-    destruct H1 as (A & B & C & D).
-    constructor; unfold w_set_cursor; cbn [wlines widx wcur wdc wlc]; try assumption.
+      unfold w_set_cursor; cbn [wlines widx wdc wlc wli]. repeat split; try apply H; lia. }
+    destruct H1 as (A & B & C & D & D2).
+    constructor; unfold w_set_cursor; cbn [wlines widx wcur wdc wlc wli]; try assumption.
     pose proof (set_cursor_inv (w_abs w1) (len (w_text w1))) as I.
     unfold Inv in I. cbn [btext] in I.
     replace (btext (set_cursor (w_abs w1) (len (w_text w1)))) with (w_text w1) in I by reflexivity.
@@ -214,8 +227,8 @@ Qed.
 
 (* A freshly constructed Buffer (reset): empty caches. *)
 Lemma winv_initial ls i c :
-  0 <= i < len ls -> 0 <= c <= len (w_text (mkw ls i c [] [])) -> WInv (mkw ls i c [] []).
-Proof. intros A B. constructor; cbn [wlines widx wcur wdc wlc]; try assumption; try constructor. cbn. lia. Qed.
+  0 <= i < len ls -> 0 <= c <= len (w_text (mkw ls i c [] [] [])) -> WInv (mkw ls i c [] [] []).
+Proof. intros A B. constructor; cbn [wlines widx wcur wdc wlc wli]; try assumption; try constructor. cbn. lia. Qed.
 
 (* ---------------------------------------------------------------------- *)
 (* Frame: an edit writes the current working line only *)
@@ -248,47 +261,88 @@ Qed.
 
 (* ---------------------------------------------------------------------- *)
 (* "The text seen through every view of the buffer is the same": the
-   Document handed out by the cache and its cached lines are those of the
-   current working line, in every invariant state. *)
+   Document handed out by the cache, its cached lines and its cached
+   line-start table are those of the current working line, in every
+   invariant state. *)
+Lemma w_document_ok w :
+  WInv w ->
+  fst (w_document w) = mkdoc (w_text w) (wcur w) /\
+  wlines (snd (w_document w)) = wlines w /\ widx (snd (w_document w)) = widx w /\
+  wcur (snd (w_document w)) = wcur w /\ WInv (snd (w_document w)).
+Proof.
+  intros H. unfold w_document.
+  destruct (dc_get_ok (w_text w, wcur w) (wdc w) (wi_dc w H) (wi_dcn w H)) as (A & B & C).
+  destruct (dc_get (w_text w, wcur w) (wdc w)) as [d dc]. cbn [fst snd] in *.
+  repeat split; try assumption; cbn [wlines widx wcur wdc wlc wli]; try apply H; assumption.
+Qed.
+
+Lemma w_doc_lines_ok d w :
+  WInv w ->
+  fst (w_doc_lines d w) = split_on NL (dtext d) /\
+  wlines (snd (w_doc_lines d w)) = wlines w /\ widx (snd (w_doc_lines d w)) = widx w /\
+  wcur (snd (w_doc_lines d w)) = wcur w /\ WInv (snd (w_doc_lines d w)).
+Proof.
+  intros H. unfold w_doc_lines. destruct (lc_find (dtext d) (wlc w)) as [ls|] eqn:E; cbn [fst snd].
+  - pose proof (lc_find_ok _ _ _ (wi_lc w H) E). repeat split; try assumption; apply H.
+  - repeat split; cbn [wlines widx wcur wdc wlc wli]; try apply H.
+    constructor; [reflexivity|apply H].
+Qed.
+
+Lemma w_doc_line_indexes_ok d w :
+  WInv w ->
+  fst (w_doc_line_indexes d w) = line_start_indexes d /\
+  wlines (snd (w_doc_line_indexes d w)) = wlines w /\
+  widx (snd (w_doc_line_indexes d w)) = widx w /\
+  wcur (snd (w_doc_line_indexes d w)) = wcur w /\ WInv (snd (w_doc_line_indexes d w)).
+Proof.
+  intros H. unfold w_doc_line_indexes.
+  destruct (li_find (dtext d) (wli w)) as [ix|] eqn:E; cbn [fst snd].
+  - pose proof (li_find_ok _ _ _ (wi_li w H) E) as X. repeat split; try assumption; apply H.
+  - destruct (w_doc_lines_ok d w H) as (A & B & C & D & I).
+    destruct (w_doc_lines d w) as [ls w1]. cbn [fst snd] in *. subst ls.
+    split; [reflexivity|]. cbn [wlines widx wcur wdc wlc wli].
+    split; [exact B|]. split; [exact C|]. split; [exact D|].
+    destruct I as [I1 I2 I3 I4 I5 I6].
+    constructor; cbn [wlines widx wcur wdc wlc wli]; try assumption.
+    constructor; [reflexivity|exact I6].
+Qed.
+
 Lemma w_observe_views w :
   WInv w ->
-  let '((d, ls), w') := w_observe w in
+  let '((d, ls, ix), w') := w_observe w in
   d = mkdoc (w_text w) (wcur w) /\ ls = split_on NL (w_text w) /\
+  ix = line_start_indexes (mkdoc (w_text w) (wcur w)) /\
   join [NL] ls = w_text w /\
   text_before_cursor d ++ text_after_cursor d = w_text w /\
   wlines w' = wlines w /\ widx w' = widx w /\ wcur w' = wcur w /\ WInv w'.
 Proof.
-  intros H. unfold w_observe, w_document.
-  destruct (dc_get_ok (w_text w, wcur w) (wdc w) (wi_dc w H) (wi_dcn w H)) as (A & B & C).
-  destruct (dc_get (w_text w, wcur w) (wdc w)) as [d dc] eqn:E. cbn [fst snd] in A, B, C.
-  unfold w_doc_lines; cbn [wlc wlines widx wcur wdc].
-  assert (Hd : dtext d = w_text w) by (rewrite A; reflexivity).
-  assert (Hviews : join [NL] (split_on NL (w_text w)) = w_text w /\
-                   text_before_cursor d ++ text_after_cursor d = w_text w).
-  { pose proof (views_agree (w_abs w) (winv_abs w H)) as (V1 & V2 & _).
-    unfold lines, bdoc, w_abs in V2; cbn [btext bcur dtext] in V2.
-    split; [exact V2|]. rewrite A. exact V1. }
-  destruct Hviews as [V2 V1].
-  rewrite Hd.
-  destruct (lc_find (w_text w) (wlc w)) as [ls|] eqn:El.
-  - pose proof (lc_find_ok _ _ _ (wi_lc w H) El) as L.
-    repeat split; try assumption; try (subst ls; assumption); try apply H.
-  - repeat split; try assumption; try reflexivity; try apply H.
-    cbn [wlc]. constructor; [reflexivity|apply H].
+  intros H. unfold w_observe.
+  destruct (w_document_ok w H) as (A & A1 & A2 & A3 & AI).
+  destruct (w_document w) as [d w1]. cbn [fst snd] in *.
+  destruct (w_doc_lines_ok d w1 AI) as (B & B1 & B2 & B3 & BI).
+  destruct (w_doc_lines d w1) as [ls w2]. cbn [fst snd] in *.
+  destruct (w_doc_line_indexes_ok d w2 BI) as (C & C1 & C2 & C3 & CI).
+  destruct (w_doc_line_indexes d w2) as [ix w3]. cbn [fst snd] in *.
+  pose proof (views_agree (w_abs w) (winv_abs w H)) as (V1 & V2 & _).
+  unfold lines, bdoc, w_abs in V2; cbn [btext bcur dtext] in V2.
+  subst d. cbn [dtext] in *. subst ls ix.
+  split; [reflexivity|]. split; [reflexivity|]. split; [reflexivity|]. split; [exact V2|].
+  split; [exact V1|]. split; [congruence|]. split; [congruence|]. split; [congruence|exact CI].
 Qed.
 
 (* after every finite sequence of operations on a fresh buffer *)
 Lemma w_views_after_history ops w :
   WInv w ->
   let w1 := wsteps w ops in
-  let '((d, ls), _) := w_observe w1 in
+  let '((d, ls, ix), _) := w_observe w1 in
   dtext d = w_text w1 /\ dcur d = wcur w1 /\ join [NL] ls = w_text w1 /\
+  ix = line_start_indexes (mkdoc (w_text w1) (wcur w1)) /\
   text_before_cursor d ++ text_after_cursor d = w_text w1 /\
   0 <= wcur w1 <= len (w_text w1).
 Proof.
   intros H w1. pose proof (wsteps_inv ops w H) as H1. fold w1 in H1.
   pose proof (w_observe_views w1 H1) as V.
-  destruct (w_observe w1) as [[d ls] w2].
-  destruct V as (A & B & C & D & _). subst d.
+  destruct (w_observe w1) as [[[d ls] ix] w2].
+  destruct V as (A & B & C & D & E & _). subst d.
   repeat split; try assumption; apply H1.
 Qed.
